@@ -331,7 +331,7 @@ func scalars() []interface{} {
 		true, false,
 		[]string{}, []string{"a"}, []string{"a", "", "ü"},
 		[]byte{}, []byte{0, 1, 255},
-		[]interface{}{}, []interface{}{int8(1), "x", true, uint16(7), float32(2.5)}, []interface{}{[]interface{}{int32(1)}, []string{"n"}},
+		[]interface{}{}, []interface{}{int8(1), "x", true, uint16(7), float32(2.5)}, []interface{}{true, false, true, true}, []interface{}{"", "", int64(0), int64(0)}, []interface{}{[]interface{}{int32(1)}, []string{"n"}},
 		nil, struct{}{}, map[string]int{"a": 1}, []int{1}, &struct{}{}, []interface{}{struct{}{}}, []interface{}{"bad\xff"},
 	}
 	// strings around every corner of UTF-8: valid ones (among them the
@@ -401,6 +401,25 @@ func specScalars() seqmc.Spec {
 			if !reflect.DeepEqual(got, want) {
 				return desc, true, vio("scalar-roundtrip", "ToScalar(FromScalar(%s)) = %T(%#v), expected %T(%#v)", desc, got, got, want, want)
 			}
+		}
+		// the message a conversion returns belongs to its caller: the caller
+		// overwrites it in place (as the fake target's generator does with the
+		// values it holds) - members of one leaf-list are independent of each
+		// other, and converting an equal scalar AGAIN still yields the right value
+		pristine := proto.Clone(tv).(*pb.TypedValue)
+		scribble := func(t *pb.TypedValue) { t.Value = &pb.TypedValue_StringVal{StringVal: "scribbled-by-the-holder"} }
+		if ll := tv.GetLeaflistVal(); ll != nil && len(ll.Element) > 1 {
+			scribble(ll.Element[0])
+			for k := 1; k < len(ll.Element); k++ {
+				if !proto.Equal(ll.Element[k], pristine.GetLeaflistVal().Element[k]) {
+					return desc, true, vio("scalar-result-aliased", "FromScalar(%s): overwriting member 0 of the returned leaf-list changed member %d to %v", desc, k, ll.Element[k])
+				}
+			}
+		}
+		scribble(tv)
+		again, err := value.FromScalar(x)
+		if err != nil || !proto.Equal(again, pristine) {
+			return desc, true, vio("scalar-result-aliased", "FromScalar(%s) converted again after the holder of the first result overwrote that message: got %v (error %v), expected %v", desc, again, err, pristine)
 		}
 		return desc, true, nil
 	}}
